@@ -32,3 +32,31 @@ Proof. reflexivity. Qed.
 Example two_paths_one_entry_each_accepted :
   single_section 0 (Alt (Seq (Acq 0 R) (Rel 0 R)) (Seq (Acq 0 W) (Rel 0 W))) = true.
 Proof. reflexivity. Qed.
+
+(* ---- "lock l is never held at an operation that may wait for another party" ----
+   [wu l held p] = (is l held afterwards on some path, does some Block or Guarded operation happen while l is held).
+   Stronger than the premise of the progress theorem for Guarded (which the theorem treats as a step): for the emitter
+   it says that neither a plain send nor a select on a subscriber channel ever happens under the emitter lock. *)
+Fixpoint wu (l : nat) (held : bool) (p : prog) : bool * bool :=
+  match p with
+  | Acq l' _ => (if l' =? l then true else held, false)
+  | Rel l' _ => (if l' =? l then false else held, false)
+  | Block | Guarded => (held, held)
+  | Seq a b => let '(h1, b1) := wu l held a in let '(h2, b2) := wu l h1 b in (h2, b1 || b2)
+  | Alt a b => let '(h1, b1) := wu l held a in let '(h2, b2) := wu l held b in (h1 || h2, b1 || b2)
+  | Loop a => let '(h1, b1) := wu l held a in (held || h1, b1)
+  | Go a => (held, snd (wu l false a))
+  | _ => (held, false)
+  end.
+Definition never_waits_holding (l : nat) (p : prog) : bool := negb (snd (wu l false p)).
+
+(* the pre-fix Publish: Lock; for each subscriber: out <- msg; Unlock *)
+Example old_publish_waits_holding :
+  never_waits_holding 0 (Seq (Acq 0 W) (Seq (Loop Block) (Rel 0 W))) = false /\
+  safe_prog 1 (Seq (Acq 0 W) (Seq (Loop Block) (Rel 0 W))) = false.
+Proof. split; reflexivity. Qed.
+(* the repaired one: copy the list under the read lock, then per subscriber: sendMutex.RLock; select{send, <-done}; RUnlock *)
+Example new_publish_ok :
+  let p := Seq (Acq 0 R) (Seq (Rel 0 R) (Loop (Seq (Acq 1 R) (Seq Guarded (Rel 1 R))))) in
+  never_waits_holding 0 p = true /\ never_waits_holding 1 p = false /\ safe_prog 2 p = true.
+Proof. repeat split; reflexivity. Qed.
